@@ -9,7 +9,7 @@ DOMAIN = 'gin/eval'
 PROPS_FILES = ['Gin/Props/C05.lean']
 ANCHOR_FILES = ['config.py', 'config_parser.py', 'selector_map.py']
 RULE = ('1-2 consumer probes, 1-2 target probes; macros (plain and scope-like names) defined and redefined before and '
-        'after their uses across several parse_config calls and programmatic binds, some bound to evaluated references; '
+        'after their uses across several parse_config calls (some with skip_unknown on) and programmatic binds, some bound to evaluated references; '
         'constants with shared dotted suffixes defined in and out of interactive mode (valid, invalid, duplicate names), '
         '%abbreviations resolved at parse time (unique / ambiguous / none); consuming calls; finalize under a random '
         'active scope with unbound / unevaluated macro references. non-trivial = a macro is used before its (last) '
@@ -60,6 +60,9 @@ def gen_case(rng):
         val = G.gen_value(rng, 1)
       ops.append({'op': 'bind', 'scope': name, 'sel': 'gin.macro', 'arg': 'value', 'val': val,
                   '_form': rng.choice(['macro_text', 'macro_text', 'macro_key']), 'block': False})
+      if ops[-1]['_form'] == 'macro_text' and rng.random() < 0.3:
+        # a macro definition is not a binding of an unknown configurable: skip_unknown leaves it alone
+        ops[-1]['_skip'] = rng.choice([True, True, ['zz.unknown'], [name], (name, 'gin.macro')])
     elif r < 0.55:  # use of a macro / constant in a consumer binding
       c = rng.choice(consumers)
       cls = [n for n, k in G.param_classes(c).items() if k == 'valid']
